@@ -289,6 +289,14 @@ theorem {pid}_metamodel_constructor (T : Ty) (A : PyTy) (n k m : Nat) (hann : an
 theorem {pid}_metamodel_structures (s : Struct) (hs : s ∈ Gen.M.structures) (j : Json) (hv : validStructC Gen.M s j = true) (hw : Wf j) :
     RoundTrips Gen.env Gen.bad (.cls s.name) j := {pid}_checked.roundtrip_struct hs hv hw
 
+/-- **C01's last sentence**: nothing a valid structure value declares with a non-null value is lost — it is in the re-serialised object, under the
+    same key, with a related value (equal, for scalars: `nrel_scalar_eq`) -/
+theorem {pid}_no_property_lost (s : Struct) (hs : s ∈ Gen.M.structures) (kvs : List (Name × Json)) (hv : validStructC Gen.M s (.obj kvs) = true) (hw : Wf (.obj kvs)) :
+    ∃ v' out, (∃ m, structTy Gen.env m (.cls s.name) (.obj kvs) = .ok v') ∧ (∃ m, unstruct Gen.env m Option.none v' = .ok (.obj out)) ∧
+      ∀ key x, Json.lookup kvs key = some x → x.isNull = false →
+        ∃ y, Json.lookup out key = some y ∧ ∃ (f : Field) (k' : Nat), f.wireS = key ∧ nrel Gen.env k' f.ty x y = true :=
+  ({pid}_checked.roundtrip_struct hs hv hw).no_loss
+
 /-- every request, every notification, and every response except the excluded ones: the message class is the one the catalogue names -/
 theorem {pid}_metamodel_requests (r : Request) (hr : r ∈ Gen.M.requests) (j : Json) (hv : validRequestC Gen.M r j = true) (hw : Wf j) :
     ∃ e, entryOf Gen.env r.method = some e ∧ RoundTrips Gen.env Gen.bad (.cls e.req) j :=
@@ -314,6 +322,7 @@ theorem {pid}_metamodel_responses (r : Request) (hr : r ∈ Gen.M.requests) (hx 
 #print axioms {pid}_metamodel_type
 #print axioms {pid}_metamodel_constructor
 #print axioms {pid}_metamodel_structures
+#print axioms {pid}_no_property_lost
 #print axioms {pid}_metamodel_requests
 #print axioms {pid}_metamodel_notifications
 #print axioms {pid}_metamodel_aliases
@@ -330,7 +339,7 @@ theorem {pid}_metamodel_responses (r : Request) (hr : r ∈ Gen.M.requests) (hx 
 """
     names = [f"{pid}_T1_progs", f"{pid}_T1_excluded_are_rejected", f"{pid}_T1_classes", f"{pid}_structure_total", f"{pid}_T1_roots",
              f"{pid}_T2_classes", f"{pid}_unstructure_total", f"{pid}_roundtrip", f"{pid}_constructor_path",
-             f"{pid}_checked", f"{pid}_metamodel_type", f"{pid}_metamodel_constructor", f"{pid}_metamodel_structures", f"{pid}_metamodel_requests",
+             f"{pid}_checked", f"{pid}_metamodel_type", f"{pid}_metamodel_constructor", f"{pid}_metamodel_structures", f"{pid}_no_property_lost", f"{pid}_metamodel_requests",
              f"{pid}_metamodel_notifications", f"{pid}_metamodel_responses", f"{pid}_metamodel_aliases"]
     return [[genbad], [genlink], layer + [progs] + llayer + [linkmsgs], [(f"{pid}T1", final)]], names
 
